@@ -1,8 +1,18 @@
 import GB.Base.Proto
+import GB.C06.Hist
 namespace GB.C06
 open GB GB.Proto
 
-/-- stub: replaced when the C06 slice is built -/
-def handle : Handler := fun _ _ => "BAD c06 unimplemented"
+/-- area c06: history lines (see GB/C06/Hist.lean for the format) -/
+def handle : Handler
+  | "hist" :: inp, out => Hist.judgeHist inp out
+  | ["tmpl", hx], [out] =>
+    -- ties the driver's instance of the opaque `valid` parameter to routing.buildPattern on the generator's pool
+    match parseHex hx with
+    | none => "BAD hex"
+    | some t =>
+      let m := if validSimple t then "1" else "0"
+      if out = m then s!"OK b=tmpl-{m}" else s!"DIFF model={m} (restricted template language of the C06 driver)"
+  | _, _ => "BAD c06 line"
 
 end GB.C06
